@@ -234,7 +234,7 @@ class Gen:
         kinds = [("append", 30), ("start", 9), ("end", 4), ("clear", 3), ("setMode", 3), ("setField", 12),
                  ("read", 8), ("items", 3), ("slice", 3), ("extractTimeRange", 5), ("extractField", 4),
                  ("viewRead", 3), ("viewItems", 2), ("apply", 5), ("newField", 5), ("newStore", 2),
-                 ("fromFields", 1), ("poke", 2)]
+                 ("fromFields", 1), ("poke", 2), ("fromCollection", 3)]
         k = r.choices([a for a, _ in kinds], [b for _, b in kinds])[0]
         via = "tracker" if r.random() < 0.25 else "direct"
         n = len(st.times)
@@ -348,6 +348,24 @@ class Gen:
             ts = [float(i) for i in range(len(fids))]
             self.flags.add("from-fields")
             return self.do({"op": "fromFields", "times": ts, "fids": fids, "mode": r.choice(W.MODES[:3])})
+        if k == "fromCollection":
+            cands = [i for i, x in enumerate(w.stores)
+                     if [float(t) for t in x.times] == [float(t) for t in st.times] and
+                     not (x._field is None and "field_attributes" in x.info)]
+            x = r.random()
+            if x < 0.75 and cands:
+                sids = [sid] + [r.choice(cands) for _ in range(r.randint(0, 2))]
+            elif x < 0.9:
+                sids = [r.randrange(len(w.stores)) for _ in range(r.randint(0, 3))]
+            else:
+                sids = [sid, r.randrange(len(w.stores))]
+            sids = [i for i in sids if not (w.stores[i]._field is None and "field_attributes" in w.stores[i].info)]
+            self.flags.add("from-collection")
+            tol = r.choice([(1e-5, 1e-8), (1e-5, 1e-8), (0.5, 0.0), (0.0, 0.25), (0.0, 0.0)])
+            if self.do({"op": "fromCollection", "sids": sids, "label": r.choice([None, "L"]),
+                        "rtol": tol[0], "atol": tol[1]}) is None and n:
+                self.n_ok_view += 1
+            return None
         if k == "poke":
             if n == 0 or len(st.data) != n:
                 return None
@@ -587,6 +605,11 @@ def remove_op(ops, k, created):
                     drop = True
                 elif v > c[1]:
                     op[key] = v - 1
+        if c[0] == "s" and "sids" in op:
+            if c[1] in op["sids"]:
+                drop = True
+            else:
+                op["sids"] = [v - 1 if v > c[1] else v for v in op["sids"]]
         if c[0] == "f" and "fids" in op:
             if c[1] in op["fids"]:
                 drop = True
@@ -665,6 +688,8 @@ def run(ctx):
                 ctx.hist("feature", fl)
             ctx.hist("storages", len(g.world.stores))
             ctx.monitor_evals += g.mon.evals
+            for o in g.mon.observations:
+                ctx.hist("observation", o)
             for f in g.failures:
                 sym = f["key"]["symptom"]
                 ops = g.ops[: f["step"] + 1]
